@@ -41,6 +41,12 @@ CHECKS = {
  "C09": ("exploration", "runtime monitor: re-encoding compared byte-for-byte with a prediction computed from the input by the reference parser; real Verify before/after; decode/encode cycles; fixed-point oracle with raw bytes discarded",
          "Accepted wire messages (reference-signed with all encoder choices and nested countersignatures, plus accepted structural mutants) are decoded and re-encoded: both header buckets of every layer must be reproduced verbatim, signatures must still verify, 5 cycles must be stable, and the encoding obtained after discarding raw bytes must be a fixed point of decode/encode.",
          "trusted: refcbor spans (raw item boundaries), prediction rules of appendix A.4", "DESIGN.md section 4 C09"),
+ "C12": ("exploration", "runtime monitor: SignHashEnvelope output parsed by the reference parser and closed through the real VerifyHashEnvelope; deep-hash snapshot of caller maps; two-sided differential of VerifyHashEnvelope against the reference envelope rules on reference-signed envelopes",
+         "Producer: 20k seeded base headers with governed labels preset under any spelling/type/bucket, raw buckets, all hash algorithms and digest lengths - every produced envelope must obey the rules, carry the given values, be accepted with exactly those values, and leave the caller's maps untouched. Verifier: the complete placement x type grid of the four governed labels (about 34k validly signed envelopes) plus digest-length/detached/untagged/external variants - a message is returned iff the rules hold.",
+         "trusted: refcose HashEnvelopeRules (appendix A.5), reference signer; a label preset by the caller counts as given", "DESIGN.md section 4 C12"),
+ "C13": ("exploration", "runtime monitor: three-way agreement oracle between the encoder verdict (any Go integer spelling), the decoder verdict and the reference RFC 9052 section 3.1 rules, per grid cell, through both bucket codecs and every message type",
+         "The grid label x value kind x bucket x direction x 10 Go spellings, all IV/Partial IV placements, crit combinations (present, absent, other bucket, wrapping values such as 260 vs int8 4, text labels, non-label entries) and duplicate labels under different spellings is enumerated completely; encode, decode and the rules must agree in every cell, also when the header set is carried by Sign1/Untagged/COSE_Sign (body and signature layers)/Signature/Countersignature and nested countersignatures.",
+         "trusted: refcose HeaderRulesGo/HeaderRulesWire (appendix A.2), cross-checked against each other in every cell", "DESIGN.md section 4 C13"),
 }
 REASON_NOT_BUILT = "check not built yet in this round; no claim is made (see DESIGN.md build order)"
 
